@@ -118,6 +118,16 @@ def observe_parse(fx, np, props, t, codes, kind, route, raw, shape=None, npfeed=
         else:
             feed = np.array(r).tolist()          # nested list of python strings (2-D: element-wise)
         Fxp = fx.Fxp
+        if not isinstance(feed, str) and (len(strs_key := str(kind)) + w + f) % 2 == 0:
+            # the same container was given to ANOTHER object before, in the other interpretation mode (it must still hold the strings)
+            try:
+                if kind in ('bin', 'binp'):
+                    Fxp(None, bool(s), w, f).from_bin(feed, raw=not raw)
+                else:
+                    Fxp(feed, bool(s), w, f, raw=not raw)
+            except Exception:
+                pass
+            row['route'] = route + '/container-reused'
         if route == 'ctor':
             y = Fxp(feed, bool(s), w, f, raw=raw)
         elif route == 'call':
